@@ -419,3 +419,12 @@ Qed.
 
 Lemma roundtrip_hyps_example : atan2_spec atan2_c /\ 1 / 10000000000 < Rabs (-2) /\ 0 <= 6 < 2 * PI.
 Proof. split; [exact atan2_c_spec|]. rewrite Rabs_left by lra. pose proof PI2_3_2. split; lra. Qed.
+
+(* C13: the array/record front-end builds dr with the kernel _fix_dr_sign; it is the object front-end's sign choice *)
+Lemma awk_fix_dr_sign_is_obj_choice atan2 charge m_pt m_phi m_pz px py pz x0 y0 z0 :
+  k_fix_dr_sign (sqrt ((px - x0) * (px - x0) + (py - y0) * (py - y0))) (phys_phi0 charge m_pt m_phi m_pz px py pz x0 y0 z0)
+                (atan2 (py - y0) (px - x0))
+  = phys_dr atan2 charge m_pt m_phi m_pz px py pz x0 y0 z0.
+Proof.
+  unfold k_fix_dr_sign, phys_dr, phys_phi0. destruct (isclose_dec _ _); [reflexivity | ring].
+Qed.
